@@ -244,11 +244,17 @@ def run(ctx):
     ctx.extra['builtin_recipes_rejected_by_tlc'] = nfail
     if bev:
         ctx.sample({'builtin_event': bev[len(bev) // 3]})
+    # ---- product-space block operators with a layer-A meaning (BlockOpSem / BlockOpMachine): the derivative clauses
+    from ..extras import blockops
+    blockops.run_stage_c06(ctx)
     ctx.exhaustive = True
 
 
 def replay(body):
     d = body['detail']
+    if body.get('signature', {}).get('part') == 'blockops':
+        from ..extras import blockops
+        return blockops.replay(body)
     if d.get('stage') == 'builtin':
         for family, opts, fn in NL.recipes('thorough'):
             if family == d['class'] and opts == d['options']:
